@@ -14,7 +14,8 @@ CONSTANTS Kinds,       \* family universes: "plain" (shapes over {a, b, V} up to
           MixedServerSet, MixedCoreServers,   \* the same two sets for the "mixed" universe
           MixedMethKeys,                      \* method sets a template of the "mixed" universe may have
           CoreLen, CoreT, CoreServers,   \* documents within these bounds are always emitted ...
-          Slice, Seed  \* ... of the others every Slice-th one, chosen by Seed (Slice = 0: none)
+          Slice, Seed, \* ... of the others every Slice-th one, chosen by Seed (Slice = 0: none)
+          DesignAll    \* TRUE: the design check (MC_C09!DesignOK) runs on every document; FALSE: on the emitted ones only
 
 VARIABLES tm, sk, kind
 vars == <<tm, sk, kind>>
@@ -36,7 +37,7 @@ AddTemplate == /\ sk = "" /\ Cardinality(DOMAIN tm) < MaxT
                /\ UNCHANGED <<sk, kind>>
 
 ChooseServer == /\ sk = "" /\ DOMAIN tm # {} /\ MethOK(tm)
-                /\ \E k \in (IF Small THEN MixedServerSet ELSE ServerSet) : (k = "pslast" => Cardinality(DOMAIN tm) > 1) /\ sk' = k
+                /\ \E k \in (IF Small THEN MixedServerSet ELSE ServerSet) : (k \in LastOverrideKeys => Cardinality(DOMAIN tm) > 1) /\ sk' = k
                 /\ UNCHANGED <<tm, kind>>
 
 Next == AddTemplate \/ ChooseServer
@@ -55,6 +56,7 @@ Hash == MapThenSumSet(LAMBDA s : Mix(ShapeRank(s) + 1000 * MethCode(tm[s])), DOM
 InSlice == Slice > 0 /\ (Hash + Seed) % Slice = 0
 
 Emitted == Complete /\ (InCore \/ InSlice)
+DesignScope == IF DesignAll THEN Complete ELSE Emitted
 
 (* CSVWrite is atomic per line only for short lines (lines over 8 KiB written by several  *)
 (* workers interleave): a document's requests are written in chunks of ChunkLen, each    *)
